@@ -1,5 +1,5 @@
 (* C01/Check.v — run-time checks evaluated by vm_compute on exact dyadics. *)
-From Precond Require Import Base.QMat Base.PsdCheck Base.PsdRound C09.Check.
+From Precond Require Import Base.PyLib Base.QMat Base.PyFloat Base.PsdCheck Base.PsdRound C09.Check C01.Ref.
 Open Scope Q_scope.
 
 (* masked identity: ones on the first s diagonal entries *)
@@ -8,22 +8,25 @@ Definition eye_masked (n s : nat) : mat :=
 
 Definition res_id (n s : nat) (M : mat) : Q := maxabs (msub M (eye_masked n s)).
 
-(* one recorded Newton transition (M,H) -> (M',H') is a tol-approximate execution of the model
-   step  Mi = (1-a) I + a M;  M' = Mi^p M;  H' = H Mi  computed exactly from the recorded pre-state,
-   and the recorded error is the residual of the recorded M' *)
+(* one recorded Newton transition  pre -> post  is a tol-approximate execution of the TRANSLATED loop
+   body (C01.Ref.newton_iter_body, i.e. Mi = (1-a) I + a M;  M' = Mi^p M;  H' = H Mi;
+   err' = max|M' - I|;  ratio' = err'/err) computed exactly from the recorded pre-state *)
 Definition newton_transition_ok (tol : Q) (n s : nat) (p : positive) (a : Q)
-           (M H M' H' : mat) (err' : Q) : bool :=
-  let Mi := madd (mscale (1 - a) (eye_masked n s)) (mscale a M) in
-  let Mp := mmul (mpow_pos Mi p) M in
-  let Hp := mmul H Mi in
+           (i : Z) (M H : mat) (err : Q) (M' H' Hold' : mat) (err' ratio' : Q) (i' : Z) : bool :=
+  let '(im, Mp, Hp, Holdp, errp, ratiop) :=
+      newton_iter_body a (eye_masked n s) p (i, M, H, H, err, 1) in
   let scm := Qmax 1 (Qmax (maxabs Mp) (maxabs M')) in
   let sch := Qmax (maxabs Hp) (maxabs H') in
+  (im =? i')%Z &&
   mclose (tol * scm * inject_Z (Zpos p)) Mp M' && mclose (tol * sch) Hp H' &&
-  qclose (tol * scm) (res_id n s M') err'.
+  mclose 0 Holdp Hold' &&
+  qclose (tol * scm) (res_id n s M') err' &&
+  (* the recorded ratio is err'/err of the recorded (float) errors *)
+  qclose (tol * Qmax 1 (Qabs ratio')) (err' / err) ratio'.
 
-(* loop guard replayed exactly on the recorded floats *)
-Definition guard_s (iters i : Z) (tol err ratio : Q) : bool :=
-  (i <? iters)%Z && Qltb tol err && Qltb ratio (12 # 10).
+(* loop guard replayed exactly on the recorded floats, through the TRANSLATED condition *)
+Definition guard_s (iters i : Z) (tol maxr err ratio : Q) : bool :=
+  newton_iter_condition iters tol maxr (i, [], [], [], err, ratio).
 
 (* certificate for a returned root *)
 Definition zero_outside (s : nat) (X : mat) : bool :=
